@@ -178,6 +178,10 @@ func main() {
 	if d := os.Getenv("VERIF_REPO"); d != "" {
 		repoDir = d
 	}
+	outDir := verifDir
+	if d := os.Getenv("VERIF_OUT"); d != "" {
+		outDir = d // seeded-change runs: keep /verif/evidence and /verif/replays untouched
+	}
 	cfg, ok := props[id]
 	if !ok {
 		die(2, "unknown or unclaimed property", id)
@@ -237,8 +241,25 @@ func main() {
 		replayIsRace = bytes.Contains(b, []byte(`"no-data-race"`))
 		needRace = replayIsRace
 	}
+	// a repository other than /repo (VERIF_REPO, used for seeded-change runs on scratch copies):
+	// build with a copy of go.mod whose replace directive points there
+	modfile := ""
+	if repoDir != "/repo" {
+		b, err := os.ReadFile(filepath.Join(verifDir, "go.mod"))
+		if err != nil {
+			die(2, err)
+		}
+		modfile = filepath.Join(scratch, "go.mod")
+		os.WriteFile(modfile, []byte(strings.Replace(string(b), "=> /repo", "=> "+repoDir, 1)), 0o644)
+		if sb, err := os.ReadFile(filepath.Join(verifDir, "go.sum")); err == nil {
+			os.WriteFile(filepath.Join(scratch, "go.sum"), sb, 0o644)
+		}
+	}
 	build := func(out string, race bool) error {
 		args := []string{"build", "-overlay", filepath.Join(gen, "overlay.json"), "-tags", "verif", "-o", out}
+		if modfile != "" {
+			args = append(args, "-modfile="+modfile)
+		}
 		if race {
 			args = append(args, "-race")
 		}
@@ -649,7 +670,7 @@ func main() {
 
 	// 5. failures: de-duplicate by class, minimise, confirm in a fresh process, apply known findings
 	known := loadKnown(filepath.Join(verifDir, "known_findings.json"))
-	replayDir := filepath.Join(verifDir, "replays", id)
+	replayDir := filepath.Join(outDir, "replays", id)
 	violations := 0
 	knownHits := map[int]bool{}
 	inconclusive := 0
@@ -859,12 +880,12 @@ func main() {
 			},
 		},
 	}
-	os.MkdirAll(filepath.Join(verifDir, "evidence"), 0o755)
+	os.MkdirAll(filepath.Join(outDir, "evidence"), 0o755)
 	eb, _ := json.MarshalIndent(ev, "", " ")
-	if err := os.WriteFile(filepath.Join(verifDir, "evidence", id+".json"), eb, 0o644); err != nil {
+	if err := os.WriteFile(filepath.Join(outDir, "evidence", id+".json"), eb, 0o644); err != nil {
 		die(2, err)
 	}
-	fmt.Printf("evidence: %s (wall %.1fs)\n", filepath.Join(verifDir, "evidence", id+".json"), time.Since(start).Seconds())
+	fmt.Printf("evidence: %s (wall %.1fs)\n", filepath.Join(outDir, "evidence", id+".json"), time.Since(start).Seconds())
 	switch {
 	case violations > 0:
 		exit(1)
